@@ -337,3 +337,25 @@ CHECKS['C15'].update(
          'unrepaired).')
 CHECKS['C01'].update(
     text=CHECKS['C01']['text'] + ' T9: no return between a recursive descent and the way-up fix-ups.')
+
+
+# ---- wave-6 extensions (second seeding round for C04 C05 C07 C10 C16) -------------------------------------------------------
+CHECKS['C05'].update(text=CHECKS['C05']['text'] + ' S7: the walk recognises a cursor in use by a field that is non-zero after every '
+                     'delivery (the name pointer) - a stored hash of 0 or a NULL next link must not make a used cursor look fresh.')
+CHECKS['C10'].update(text=CHECKS['C10']['text'] + ' G2: element shifts move the tail by exactly one element (destination offset - '
+                     'source offset = +objsize on insertion, -objsize on removal, as polynomials relative to the array start).')
+CHECKS['C16'].update(text=CHECKS['C16']['text'] + ' TB7 is now the tabulated step law of the URL decoder (the loop body is interpreted '
+                     'for every byte and four hex pairs: \'+\' -> space, %hh -> 16*hi+lo and not mapped again, other bytes unchanged, a '
+                     'complete escape consumes 3 bytes). TB15: an encoder that shrinks its output keeps the terminator. TB16: the '
+                     'in-place decoders return write cursor - buffer start, not a string function of the output.')
+CHECKS['C04'].update(text=CHECKS['C04']['text'] + ' T7 also: only the walker and (re)initialisation advance the 8-bit traversal id - no '
+                     'function that advances it is reachable from any other public operation. R2-src: a node payload is copied with '
+                     'the size stored next to it in the same node.')
+CHECKS['C12'].update(text=CHECKS['C12']['text'] + ' R2-src: qmemdup/memcpy of a node payload uses that node\'s own size field.')
+CHECKS['C11'].update(text=CHECKS['C11']['text'] + ' M4 is applied in its capacity form here (allocation >= copied length; sizes the rule '
+                     'cannot relate are listed as undecided) - the exact form belongs to C12.')
+for _k in list(CHECKS):
+    CHECKS[_k].setdefault('note', '')
+THOROUGH_NOTE = ('The thorough tier analyses all three build configurations, runs the anchored self-test mutants, and replays the kept '
+                 'corpus on scratch copies: every seeded change attributed to the check must be reported and every behaviour-preserving '
+                 'refactoring must leave it silent (a miss or an alarm there makes the run analysis-broken).')
